@@ -103,8 +103,10 @@ type H struct {
 	Stream        string
 	OnStep        func(h *H, op Op, real, model []BoxD) // extra oracles
 	pendingAppend *appendUID
-	LastImpl string // canonical implementation answer of the last op
-	Prev     []BoxD // real dump before the last op
+	LastImpl      string // canonical implementation answer of the last op
+	Prev          []BoxD // real dump before the last op
+	SpecTheorem   string // when set, the model's post-state is the property's specification (by this theorem)
+	SkipValidity  bool   // UIDVALIDITY freshness is C03's business: other properties' runs do not judge it
 }
 
 func New(w *world.World, m *hx.Session, rep *hx.Report, user, stream string) *H {
@@ -359,6 +361,11 @@ func (h *H) Do(op Op) {
 		return
 	}
 	rd, md := CanonDump(real), CanonDump(model)
+	if rd != md && h.SpecTheorem != "" {
+		// the model's post-state is the specification's (theorem SpecTheorem): the implementation violates it on this history
+		h.fail("impl-violation", fmt.Sprintf("after %d ops, %q: the implementation's state is not the one the specification (%s) prescribes\n  implementation: %s\n  specification:  %s", len(h.Ops), op.Human(), h.SpecTheorem, rd, md))
+		return
+	}
 	if rd != md {
 		h.fail("broken-correspondence", fmt.Sprintf("after %d ops, %q: state differs\n  implementation: %s\n  model:          %s", len(h.Ops), op.Human(), rd, md))
 		return
@@ -496,7 +503,12 @@ func (h *H) oracle(op Op, real, model []BoxD) {
 	for _, b := range real {
 		key := fmt.Sprintf("%s|%d", b.Name, b.Validity)
 		// validity freshness: one (name, validity) pair, one incarnation
-		if inc, ok := h.incOf[key]; ok && inc != incByName[b.Name] {
+		if inc, ok := h.incOf[key]; ok && inc != incByName[b.Name] && h.SkipValidity {
+			delete(h.incOf, key)
+			delete(h.seenUID, key)
+			delete(h.maxUID, key)
+			delete(h.lastNext, key)
+		} else if ok && inc != incByName[b.Name] {
 			what := fmt.Sprintf("mailbox %q denotes a different set of messages (incarnation %d, was %d) under the same UIDVALIDITY %d", b.Name, incByName[b.Name], inc, b.Validity)
 			// class predicate of finding C03-F1: both incarnations were created within the same wall-clock second,
 			// which is the only way the implementation (uid_validity = time.Now().Unix()) can produce equal values
@@ -565,12 +577,14 @@ func (h *H) oracle(op Op, real, model []BoxD) {
 // ---------- running, shrinking, replaying whole histories ----------
 
 type Env struct {
-	W      *world.World
-	Driver string
-	Rep    *hx.Report
-	Stream string
-	nUser  int
-	OnStep func(h *H, op Op, real, model []BoxD)
+	W            *world.World
+	Driver       string
+	Rep          *hx.Report
+	Stream       string
+	nUser        int
+	OnStep       func(h *H, op Op, real, model []BoxD)
+	SpecTheorem  string
+	SkipValidity bool
 }
 
 // Run executes ops on a fresh user/store and a fresh model; it returns the history (Failed tells the verdict).
@@ -584,6 +598,8 @@ func (e *Env) Run(ops []Op, rep *hx.Report) *H {
 	defer m.Close()
 	h := New(e.W, m, rep, fmt.Sprintf("u%d@example.com", e.nUser), e.Stream)
 	h.OnStep = e.OnStep
+	h.SpecTheorem = e.SpecTheorem
+	h.SkipValidity = e.SkipValidity
 	defer h.Close()
 	for _, op := range ops {
 		h.Do(op)
